@@ -1,5 +1,5 @@
 (* C08 driver.  Request:  run <cap> <T30> <ev> <ev> ...
-     ev ::= I | D:<m>,<m>,... | D: | F | C<r> | A<dt> | PC | PE        m ::= H<n> | E<n> | O<n>
+     ev ::= I | D:<m>,<m>,... | D: | F | C<r> | A<dt> | PC | PE | LC        m ::= H<n> | E<n> | O<n>
    Answer: per-step outputs joined by '|' (tokens joined by ','), then
      " # open=<0|1> clock=<t> next=<n> infl=<r>:<wt>,... wait=<r>,..." *)
 open Drv
@@ -14,6 +14,7 @@ let ev_of_tok t =
   else if t = "F" then Disp.Frag
   else if t = "PC" then Disp.PeerClose
   else if t = "PE" then Disp.PeerEof
+  else if t = "LC" then Disp.LocalClose
   else match t.[0] with
     | 'D' -> Disp.Data (Stdlib.List.map msg_of_tok (split_on ',' (Stdlib.String.sub t 2 (Stdlib.String.length t - 2))))
     | 'C' -> Disp.Cancel (nat_of_int (int_of_string (rest ())))
